@@ -26,7 +26,7 @@ def main():
         assert rc == 0, (sid, out)
         try:
             t = time.time()
-            rc, out = sh(f"/venv/bin/python harness/check.py --property {prop} --tier quick", cwd=ROOT)
+            rc, out = sh(f"VERIF_EVIDENCE_DIR=/tmp/verif_scratch_evidence /venv/bin/python harness/check.py --property {prop} --tier quick", cwd=ROOT)
         finally:
             sh("git checkout -- .", cwd="/repo")
         v = [l for l in out.splitlines() if l.startswith("VIOLATION")]
